@@ -917,7 +917,7 @@ def predicted_error(F, t, v, site, hier):
   return not inh_dev(F, t, v, hier)
 
 
-def explain(t, v, site, impl_err, hier, max_size=4):
+def explain(t, v, site, impl_err, hier, max_size=3):
   """Smallest set of named deviations under which the model of the deviations predicts impl_err; None if none."""
   import itertools   # pylint: disable=import-outside-toplevel
   names = LOCAL_DEVS + SITE_DEVS
